@@ -580,6 +580,17 @@ def describe_expected(case, exp):
 
 
 def run(ctx):
+    C.seam_check(ctx["report"], ctx["rundir"], "C08", wrappers=[],
+                 pairs=[("X = Binomial(10, 0.3); A = 3 <= X <= 7; P(A); P(A)", "P(3 <= Binomial(10, 0.3) <= 7)"),
+                        ("X = Binomial(10, 0.3); A = 3 <= X <= 7; P(A); P(A); P(A)", "P(3 <= Binomial(10, 0.3) <= 7)"),
+                        ("B = 5 >= UniformInt(1, 6) >= 2; {P(B) : i in 1..3}", "{P(5 >= UniformInt(1, 6) >= 2) : i in 1..3}".replace("P(5", "0 + P(5")),
+                        ("X = Poisson(3); P(X > 1000); P(X <= 2)", "P(Poisson(3) <= 2)"), ("X = Poisson(3); P(X > 1000); P(X >= 4)", "P(Poisson(3) >= 4)"),
+                        ("Y = Poisson(2); P(Y < 10^6) * P(Y <= 1)", "P(Poisson(2) <= 1)"), ("X = Poisson(3); P(X <= 2); P(X <= 2)", "P(Poisson(3) <= 2)"),
+                        ("X = Geometric(1/3); E = X <= 2; P(E) + P(E)", "2 * P(Geometric(1/3) <= 2)")])
+    C.expect_sessions(ctx["report"], ctx["rundir"], "C08",
+                      [(["X = Binomial(10, 0.3)", "pi = 5", "P(X <= pi) > 0.95"], "I:1", "a threshold stored under the name pi in an earlier input"),
+                       (["e = Poisson(3)", "P(e < 2) < 0.2"], "I:1", "a distribution stored under the name e in an earlier input"),
+                       (["X = Poisson(3)", "P(X > 1000)", "P(X <= 2) < 0.5"], "I:1", "a far query on a stored Poisson, then an ordinary one")])
     C.config_matrix(ctx["report"], ctx["rundir"], "C08", ["P(Binomial(10,0.3) <= 5)", "P(3 <= Binomial(10,0.3) <= 7)", "P(Poisson(3) <= 2)", "P(Gaussian(0,1) < 1)", "E(UniformInt(1,10))", "P(Binomial(0,1/2) <= 1)", "X = Poisson(3); P(X > 1000); P(X <= 2)", "X = Binomial(10, 0.3); A = 3 <= X <= 7; P(A); P(A)", "pi = 5; P(Binomial(10,0.3) <= pi)"])
     rep, tier, seed = ctx["report"], ctx["tier"], ctx["seed"]
     rng = random.Random(seed * 104729 + 8)
